@@ -25,6 +25,7 @@ class Profile(object):
   minimise_budget = 45
   max_events = 30
   sandbox_death_is_violation = False
+  cpu_timeout_is_violation = False    # C18: termination is the property
 
   # -- evidence texts ---------------------------------------------------------------------------
   def rule_text(self):
